@@ -313,6 +313,30 @@ def targeted(pid, rng, n):
                 tree["children"][0].pop("pure", None)
                 tree["children"][0]["name"] = "mid"
             out.append(dict(tree=tree))
+        elif pid in ("C03", "C08") and i % 3 == 1:
+            # schedulers with a timeout whose jobs never end (or end after it), regular or forever, the timeout 0,
+            # reached exactly when a job completes, or while the scheduler is busy reacting
+            nb = rng.randint(1, 4)
+            jobs = []
+            for k in range(nb):
+                never = rng.random() < 0.5
+                jobs.append(J("n%d" % k, None if never else rng.choice([0, 1, 2, 3]), forever=rng.random() < 0.4,
+                              k=rng.choice([0, 0, 1, 2]), ch=rng.choice([0, 0, 2]), exc=(not never) and rng.random() < 0.2))
+            for a in range(1, nb):
+                if rng.random() < 0.3 and jobs[a - 1]["d"] is not None:
+                    jobs[a]["req"] = [jobs[a - 1]["name"]]
+            hs = list(range(nb))
+            rng.shuffle(hs)
+            for jb, h in zip(jobs, hs):
+                jb["h"] = h
+            T = rng.choice([0, 0, 1, 2, 3])
+            inner = S("tmo", jobs, T=T, crit=rng.random() < 0.5, w=rng.choice([None, None, 1, 2]), sdT=rng.choice([1, 2, None]))
+            if rng.random() < 0.5:
+                inner["pure"] = rng.random() < 0.3
+                out.append(dict(tree=inner))
+            else:
+                out.append(dict(tree=S("top", [inner, J("side", rng.choice([1, 2, 4]))], T=rng.choice([None, 5]),
+                                       crit=rng.random() < 0.5, pure=rng.random() < 0.3)))
         elif pid in ("C03", "C06", "C07", "C12") and r < 0.5:
             # windows smaller than the ready set, raising jobs holding slots
             n_jobs = rng.randint(3, 7)
